@@ -605,7 +605,10 @@ func (e *Env) index(base, idx Term) Term {
 	case strings.HasPrefix(base.Sort, "(Array "):
 		// ghost map
 		parts := splitSortArgs(base.Sort)
-		return Term{S: sx("select", base.S, e.value(idx).S), Sort: parts[1]}
+		if parts[0] != "Int" {
+			idx = e.value(idx) // (a reference key keeps its pointer form)
+		}
+		return Term{S: sx("select", base.S, idx.S), Sort: parts[1]}
 	case base.T != nil:
 		if m, ok := types.Unalias(base.T).Underlying().(*types.Map); ok {
 			_, _, vn, vs := vc.mapVars(m)
